@@ -130,6 +130,42 @@ template<> struct Val<int8_t>: SmallVal<int8_t, 240, 12> {static const char * na
 template<> struct Val<char>: SmallVal<char, 240, 12> {static const char * name() {return "char";}};
 template<> struct Val<uint16_t>: SmallVal<uint16_t, 60000, 5000> {static const char * name() {return "uint16";}};
 
+template<> struct Val<float>
+{
+  static const char * name() {return "float";}
+  static float id(uint64_t k) {return 1000.0f + static_cast<float>(k % 4000000) + 0.25f;}
+  static float empty(uint64_t k) {return -(10.0f + static_cast<float>(k % 4000000)) - 0.5f;}
+  static float special(uint64_t k)
+  {
+    static const float S[] = {0.0f, -0.0f, std::numeric_limits<float>::quiet_NaN(),
+      std::numeric_limits<float>::infinity(), 1.4e-45f, -1.0f};
+    return S[k % 6];
+  }
+  static bool same(float a, float b) {return std::memcmp(&a, &b, sizeof a) == 0;}
+  static std::string show(float a) {char b[40]; snprintf(b, sizeof b, "%.9g", static_cast<double>(a)); return b;}
+  static uint64_t hash(float a) {uint32_t u; std::memcpy(&u, &a, 4); return u;}
+};
+// 3-byte trivially copyable cell (size not a power of two, no padding)
+struct RGB
+{
+  uint8_t r, g, b;
+  bool operator==(const RGB & o) const {return r == o.r && g == o.g && b == o.b;}
+};
+template<> struct Val<RGB>
+{
+  static const char * name() {return "rgb3";}
+  static RGB id(uint64_t k) {return RGB{static_cast<uint8_t>(k & 255), static_cast<uint8_t>((k >> 8) & 255), static_cast<uint8_t>(1 + (k >> 16) % 100)};}
+  static RGB empty(uint64_t k) {return RGB{static_cast<uint8_t>(k & 255), static_cast<uint8_t>((k >> 8) & 255), static_cast<uint8_t>(150 + (k >> 16) % 100)};}
+  static RGB special(uint64_t k)
+  {
+    static const RGB S[] = {{0, 0, 0}, {255, 255, 255}, {0, 255, 0}, {128, 127, 0}};
+    return S[k % 4];
+  }
+  static bool same(const RGB & a, const RGB & b) {return a == b;}
+  static std::string show(const RGB & a) {return "(" + std::to_string(a.r) + "," + std::to_string(a.g) + "," + std::to_string(a.b) + ")";}
+  static uint64_t hash(const RGB & a) {return a.r + 256u * a.g + 65536u * a.b;}
+};
+
 // --------------------------------------------------------------------------------------------
 // reference model
 // --------------------------------------------------------------------------------------------
@@ -253,6 +289,20 @@ static const char * O_OFF = "offset.accumulated_mod_size";
 static const char * K_SURV = "surviving_cell_changed";
 static const char * K_ENT = "entering_cell_not_blank";
 static const char * K_OFF = "offset_not_accumulated";
+// cross-application classes (random part)
+static const char * O_REF_OFF = "stability.bound_offset_reference";
+static const char * O_REF_CELL = "stability.bound_cell_reference";
+static const char * O_SNAP = "stability.value_snapshot";
+static const char * O_CLONE = "value_semantics.copy_behaves_as_original";
+static const char * O_SIBLING = "interference.sibling_objects_leave_grid_unchanged";
+static const char * O_PLAIN = "base_grid.cell_reads_last_write";
+static const char * K_PLAIN = "base_grid_cell_mismatch";
+static const char * K_STALE = "stale_reference";
+static const char * K_COPY = "copy_diverges";
+static const char * K_INTERFERENCE = "cross_object_interference";
+static int g_op_class = 0;                         // numeric parameter of every violation, see random_case
+static const char * g_kind_override = nullptr;     // set while a comparison belongs to one of the classes above
+static const char * g_oracle_override = nullptr;
 
 // cheap per-case tallies of passed oracle evaluations (flushed into Ctx::margins at the end of the
 // case, a std::function per evaluation would dominate the exhaustive loops)
@@ -298,7 +348,7 @@ static void note_translation(Tally & t, const Model<V> & m, const I3 & off, int 
 
 struct OpRec
 {
-  char type;       // 'T' translate, 'W' write, 'F' fill (setValue)
+  char type;       // 'T' translate, 'W' write, 'F' fill (setValue), 'C' copy / move / assignment of the grid
   I3 a;            // offsets or cell
   std::string v;   // empty value / written value (shown)
   bool default_empty = false;
@@ -311,8 +361,8 @@ static std::string ops_json(const std::vector<OpRec> & ops)
   for (size_t i = first; i < ops.size(); ++i) {
     if (i != first) {o += ",";}
     vh::J j;
-    j.s("op", ops[i].type == 'T' ? "translate" : ops[i].type == 'W' ? "write" : "setValue");
-    if (ops[i].type != 'F') {j.arr(ops[i].type == 'T' ? "off" : "cell", ops[i].a.begin(), ops[i].a.end());}
+    j.s("op", ops[i].type == 'T' ? "translate" : ops[i].type == 'W' ? "write" : ops[i].type == 'C' ? "copy_or_move" : "setValue");
+    if (ops[i].type != 'F' && ops[i].type != 'C') {j.arr(ops[i].type == 'T' ? "off" : "cell", ops[i].a.begin(), ops[i].a.end());}
     j.s(ops[i].type == 'T' ? "empty" : "value", ops[i].v);
     if (ops[i].default_empty) {j.boolean("default_argument", true);}
     o += j.str();
@@ -379,9 +429,10 @@ static bool verdict(
   auto params = [&]() {
       return vh::Params{{"dim", static_cast<double>(DIM)}, {"nx", m.n[0]}, {"ny", m.n[1]}, {"nz", m.n[2]},
         {"translations", n_translations}, {"writes", n_writes},
-        {"offx", last_off[0]}, {"offy", last_off[1]}, {"offz", last_off[2]}};
+        {"offx", last_off[0]}, {"offy", last_off[1]}, {"offz", last_off[2]}, {"op_class", g_op_class}};
     };
   auto wit = [&]() {return witness_json<V, DIM>(unit, g, m, history(), s);};
+  if (g_kind_override) {c.expect(g_oracle_override, false, g_kind_override, params, wit); return false;}
   if (s.bad & BAD_SURVIVOR) {c.expect(O_SURV, false, K_SURV, params, wit);} else if (s.had_survivor) {++t.surv;}
   if (s.bad & BAD_ENTRANT) {c.expect(O_ENT, false, K_ENT, params, wit);} else if (s.had_entrant) {++t.ent;}
   if (s.bad & BAD_OFFSET) {c.expect(O_OFF, false, K_OFF, params, wit);} else {++t.off;}
@@ -667,15 +718,73 @@ static int pick_offset(vh::Rng & r, int n, int mode)
   }
 }
 
-template<class V, size_t DIM>
-static void random_case(vh::Ctx & c, vh::Rng & r, uint64_t idx)
+// op_class: 0 plain, 1 argument aliased with the object's own state, 2 rvalue argument, 3 right after a
+// copy / move / assignment of the grid, 4 right after operations on sibling objects, 5 long history
+struct ExtraTally
 {
+  uint64_t offref = 0, cellref = 0, snapshot = 0, clone = 0, sibling = 0, plain = 0;
+  uint64_t clones = 0, sibling_ops = 0, aliased_empty = 0, rvalue_empty = 0, getter_ref_index = 0,
+    duplicate_values = 0, repeated_translation = 0, equal_components = 0;
+  void flush(vh::Ctx & c)
+  {
+    c.margins[O_REF_OFF].n += offref; c.margins[O_REF_CELL].n += cellref; c.margins[O_SNAP].n += snapshot;
+    c.margins[O_CLONE].n += clone; c.margins[O_SIBLING].n += sibling; c.margins[O_PLAIN].n += plain;
+    c.count("grid_copies_moves_assignments", clones);
+    c.count("sibling_object_operations", sibling_ops);
+    c.count("translations_with_own_cell_as_empty_value", aliased_empty);
+    c.count("translations_with_rvalue_empty_value", rvalue_empty);
+    c.count("accesses_indexed_by_own_offset_getter", getter_ref_index);
+    c.count("duplicate_value_writes", duplicate_values);
+    c.count("repeated_identical_translations", repeated_translation);
+    c.count("equal_component_translations", equal_components);
+  }
+};
+
+template<class V, size_t DIM>
+static void fill_unique(WrappableGrid<V, DIM> & g, Model<V> & m, uint64_t & next_id)
+{
+  for (int z = 0; z < m.n[2]; ++z) {
+    for (int y = 0; y < m.n[1]; ++y) {
+      for (int x = 0; x < m.n[0]; ++x) {
+        const V v = Val<V>::id(next_id++);
+        g(mk_ci<DIM>(x, y, z)) = v; m.write(x, y, z, v);
+      }
+    }
+  }
+}
+
+static I3 random_offset(vh::Rng & r, const I3 & n, int dim, int mode)
+{
+  I3 off{{0, 0, 0}};
+  if (mode == 2) {
+    const int a = static_cast<int>(r.range(0, dim - 1));
+    off[a] = pick_offset(r, n[a], 0);
+  } else if (mode == 6) {
+    // equal components on every axis (exact ties between axes)
+    int lim = 2 * n[0];
+    for (int a = 1; a < dim; ++a) {lim = std::min(lim, 2 * n[a]);}
+    const int k = static_cast<int>(r.range(-lim, lim));
+    for (int a = 0; a < dim; ++a) {off[a] = k;}
+  } else {
+    for (int a = 0; a < dim; ++a) {off[a] = pick_offset(r, n[a], mode);}
+  }
+  return off;
+}
+
+// long_bits: 0 ordinary history; 8 / 16: the history starts with 2^8+k / 2^16+k identical cheap
+// translations that are observed only afterwards (index / counter wrap-around)
+template<class V, size_t DIM>
+static void random_case(vh::Ctx & c, vh::Rng & r, uint64_t idx, int long_bits)
+{
+  using G = WrappableGrid<V, DIM>;
   const int dim = static_cast<int>(DIM);
   I3 n{{1, 1, 1}};
-  const int sm = static_cast<int>(r.range(0, 9));
+  const int sm_ = static_cast<int>(r.range(0, 9));
   for (int a = 0; a < dim; ++a) {
-    n[a] = sm < 4 ? static_cast<int>(r.range(1, 4)) : sm < 8 ? static_cast<int>(r.range(1, 8)) :
-      static_cast<int>(r.range(5, 8));
+    if (long_bits) {n[a] = static_cast<int>(r.range(1, long_bits == 16 ? 3 : 4));} else {
+      n[a] = sm_ < 4 ? static_cast<int>(r.range(1, 4)) : sm_ < 8 ? static_cast<int>(r.range(1, 8)) :
+        static_cast<int>(r.range(5, 8));
+    }
   }
   if (sizeof(V) == 1) {
     // byte cells: at most 240 ids exist; keep the grid <= 240 cells so that they stay unambiguous.
@@ -684,87 +793,386 @@ static void random_case(vh::Ctx & c, vh::Rng & r, uint64_t idx)
       if (dim == 3 && n[1] > n[0]) {--n[1];} else {--n[0];}
     }
   }
-  const int max_translations = r.coin(0.2) ? 50 : static_cast<int>(r.range(1, 50));
+  const int max_translations = long_bits ? static_cast<int>(r.range(1, 6)) :
+    (r.coin(0.2) ? 50 : static_cast<int>(r.range(1, 50)));
   const double p_write = r.coin(0.15) ? 0.0 : r.uni(0.1, 0.6);
-  char unit[96];
-  snprintf(unit, sizeof unit, "random %s %dD n=(%d,%d,%d)", Val<V>::name(), dim, n[0], n[1], n[2]);
+  char unit[112];
+  snprintf(unit, sizeof unit, "random %s %dD n=(%d,%d,%d)%s", Val<V>::name(), dim, n[0], n[1], n[2],
+    long_bits == 8 ? " long history 2^8+k" : long_bits == 16 ? " long history 2^16+k" : "");
   c.cat(dim == 2 ? "random_2d" : "random_3d");
   c.cat(std::string("cells_") + Val<V>::name());
+  if (long_bits) {c.cat(long_bits == 8 ? "long_history_2p8" : "long_history_2p16");}
 
-  WrappableGrid<V, DIM> g(mk_ci<DIM>(n[0], n[1], n[2]));
+  std::unique_ptr<G> gp(new G(mk_ci<DIM>(n[0], n[1], n[2])));
   Model<V> m;
   m.init(n);
   std::vector<OpRec> ops;
   uint64_t next_id = c.seed % 1000 + 1, next_empty = 1;
   uint64_t h = vh::hash_addi(vh::hash_addi(0xC15, static_cast<uint64_t>(dim) * 7 + Val<std::string>::hash(Val<V>::name())),
-      static_cast<uint64_t>(n[0] + 16 * n[1] + 256 * n[2]));
+      static_cast<uint64_t>(n[0] + 16 * n[1] + 256 * n[2] + 4096 * long_bits));
   Tally t;
+  ExtraTally x;
+  g_op_class = 0;
 
   // every cell is written before anything is read (the statement says nothing about cells that
   // were neither written nor brought in by a translation)
   if (r.coin(0.1)) {
     const V v = Val<V>::id(next_id++);
-    g.setValue(v); m.fill(v);
+    gp->setValue(v); m.fill(v);
     ops.push_back({'F', {{0, 0, 0}}, Val<V>::show(v), false});
   } else {
-    for (int z = 0; z < n[2]; ++z) {
-      for (int y = 0; y < n[1]; ++y) {
-        for (int x = 0; x < n[0]; ++x) {
-          const V v = Val<V>::id(next_id++);
-          g(mk_ci<DIM>(x, y, z)) = v; m.write(x, y, z, v);
-        }
-      }
-    }
+    fill_unique<V, DIM>(*gp, m, next_id);
     ops.push_back({'W', {{0, 0, 0}}, "all cells, unique ids in x-fastest order", false});
   }
+
+  // sibling objects of the same class and of the base class (hidden shared state would show up as
+  // interference): a second wrappable grid with its own reference model, a plain Grid, temporaries
+  I3 ns{{1, 1, 1}};
+  for (int a = 0; a < dim; ++a) {ns[a] = static_cast<int>(r.range(1, 5));}
+  if (sizeof(V) == 1) {while (ns[0] * ns[1] * ns[2] > 100) {--ns[0];}}
+  std::unique_ptr<G> sp(new G(mk_ci<DIM>(ns[0], ns[1], ns[2])));
+  Model<V> sm;
+  sm.init(ns);
+  fill_unique<V, DIM>(*sp, sm, next_id);
+  // plain (non-wrapping) base-class grid fed with writes only: it must read back, cell by cell, what a
+  // never-translated window shows, i.e. the last value written to that logical cell
+  Grid<V, DIM> plain_a(mk_ci<DIM>(ns[0], ns[1], ns[2])), plain_b;
+  const bool two_step = r.coin();                  // default-construct + init() instead of the sizing constructor
+  if (two_step) {plain_b.init(mk_ci<DIM>(ns[0], ns[1], ns[2]));}
+  Grid<V, DIM> & plain = two_step ? plain_b : plain_a;
+  std::vector<V> plain_model(sm.size(), Val<V>::id(next_id));
+  plain.setValue(Val<V>::id(next_id++));
+  int s_translations = 0;
+  I3 s_last_off{{0, 0, 0}};
+  char unit_s[256];
+  snprintf(unit_s, sizeof unit_s, "sibling grid n=(%d,%d,%d) of %s", ns[0], ns[1], ns[2], unit);
+
   int translations = 0, writes = 0;
   I3 last_off{{0, 0, 0}};
   std::vector<uint8_t> written_since;   // cells written after the last translation (feature counter only)
   written_since.assign(m.size(), 0);
   bool ok = true;
-  {
-    const CmpStat st = compare<V, DIM>(g, m, 0);
-    ok = verdict<V, DIM>(c, t, unit, g, m, st, translations, writes, last_off, [&]() {return ops;});
+
+  auto params = [&]() {
+      return vh::Params{{"dim", static_cast<double>(DIM)}, {"nx", m.n[0]}, {"ny", m.n[1]}, {"nz", m.n[2]},
+        {"translations", translations}, {"writes", writes}, {"offx", last_off[0]}, {"offy", last_off[1]},
+        {"offz", last_off[2]}, {"op_class", g_op_class}};
+    };
+  auto plain_wit = [&](const std::string & what) {
+      return vh::J().s("unit", unit).s("what", what).f("ops_total", static_cast<uint64_t>(ops.size()))
+             .raw("ops_tail", ops_json(ops)).str();
+    };
+  auto check_main = [&](int access) {
+      const CmpStat st = compare<V, DIM>(*gp, m, access);
+      return verdict<V, DIM>(c, t, unit, *gp, m, st, translations, writes, last_off, [&]() {return ops;});
+    };
+
+  // ---- result stability: references bound once, as the signatures allow, and used later
+  const typename G::CellIndexes * offref = nullptr;   // = &(const auto & o = g.getIndexOffsetAlongAxes())
+  const V * cellref = nullptr;                        // = &(const V & v = constgrid(ci)), valid until the next translation
+  I3 cellref_at{{0, 0, 0}};
+  auto rebind = [&]() {
+      const typename G::CellIndexes & o = gp->getIndexOffsetAlongAxes();
+      offref = &o;
+      cellref_at = {{static_cast<int>(r.range(0, n[0] - 1)), static_cast<int>(r.range(0, n[1] - 1)),
+        static_cast<int>(r.range(0, n[2] - 1))}};
+      const G & cg = *gp;
+      const V & v = cg(mk_ci<DIM>(cellref_at[0], cellref_at[1], cellref_at[2]));
+      cellref = &v;
+    };
+  auto check_refs = [&]() -> bool {
+      bool ok_off = true;
+      for (size_t a = 0; a < DIM; ++a) {
+        if (static_cast<int64_t>((*offref)[a]) != m.offset(static_cast<int>(a))) {ok_off = false;}
+      }
+      if (ok_off) {++x.offref;} else {
+        c.expect(O_REF_OFF, false, K_STALE, params, [&]() {
+            return plain_wit("const reference returned by getIndexOffsetAlongAxes(), bound once after the last "
+                     "translation/copy, no longer shows the accumulated offset");
+          });
+      }
+      const V & want = m.cell[m.lin(cellref_at[0], cellref_at[1], cellref_at[2])];
+      const bool ok_cell = Val<V>::same(*cellref, want);
+      if (ok_cell) {++x.cellref;} else {
+        c.expect(O_REF_CELL, false, K_STALE, params, [&]() {
+            return plain_wit("const reference to cell (" + std::to_string(cellref_at[0]) + "," + std::to_string(cellref_at[1]) +
+                     "," + std::to_string(cellref_at[2]) + ") bound after the last translation reads " + Val<V>::show(*cellref) +
+                     ", the cell holds " + Val<V>::show(want));
+          });
+      }
+      return ok_off && ok_cell;
+    };
+  rebind();
+  // by-value snapshot taken now, re-compared at the end of the case
+  const V snap_value = *cellref;
+  const V snap_expect = m.cell[m.lin(cellref_at[0], cellref_at[1], cellref_at[2])];
+  const typename G::CellIndexes snap_offset = gp->getIndexOffsetAlongAxes();
+
+  ok = check_main(0);
+
+  // ---- long history prefix
+  if (ok && long_bits) {
+    const uint64_t N = (1ull << long_bits) + static_cast<uint64_t>(r.range(0, 5));
+    I3 off{{0, 0, 0}};
+    const int lm = static_cast<int>(r.range(0, 2));
+    if (lm == 0) {off[r.range(0, dim - 1)] = r.coin() ? 1 : -1;} else {
+      do {
+        for (int a = 0; a < dim; ++a) {off[a] = static_cast<int>(r.range(-2, 2));}
+      } while (off[0] == 0 && off[1] == 0 && off[2] == 0);
+    }
+    const V e = Val<V>::empty(next_empty++);
+    const auto co = mk_co<DIM>(off);
+    note_translation(t, m, off, dim);
+    for (uint64_t i = 0; i < N; ++i) {gp->translate(co, e); m.translate(off, e);}
+    t.transitions += N - 1;
+    ops.push_back({'T', off, Val<V>::show(e) + "  (this translation repeated " + std::to_string(N) + " times, not observed in between)", false});
+    h = vh::hash_addi(h, N * 4099 + static_cast<uint64_t>((off[0] + 64) + 128 * (off[1] + 64) + 16384 * (off[2] + 64)));
+    translations += static_cast<int>(N);
+    last_off = off;
+    g_op_class = 5;
+    rebind();
+    ok = check_main(static_cast<int>(r.range(0, 2)));
+    c.count(long_bits == 8 ? "long_history_2p8_translations" : "long_history_2p16_translations", N);
   }
+  const int translations_goal = translations + max_translations;
+
+  auto sibling_activity = [&]() -> bool {
+      const int k = static_cast<int>(r.range(0, 3));
+      ++x.sibling_ops;
+      bool sok = true;
+      if (k == 0) {
+        const I3 off = random_offset(r, ns, dim, static_cast<int>(r.range(0, 6)));
+        const V e = Val<V>::empty(next_empty++);
+        sp->translate(mk_co<DIM>(off), e); sm.translate(off, e);
+        ++s_translations; s_last_off = off;
+        note_translation(t, sm, off, dim);
+      } else if (k == 1) {
+        const int xx = static_cast<int>(r.range(0, ns[0] - 1)), yy = static_cast<int>(r.range(0, ns[1] - 1)),
+          zz = static_cast<int>(r.range(0, ns[2] - 1));
+        const V v = Val<V>::id(next_id++);
+        (*sp)(mk_ci<DIM>(xx, yy, zz)) = v; sm.write(xx, yy, zz, v);
+      } else if (k == 2) {
+        if (r.coin(0.15)) {
+          const V v = r.coin() ? Val<V>::special(r.next()) : Val<V>::id(next_id++);
+          plain.setValue(v);
+          std::fill(plain_model.begin(), plain_model.end(), v);
+        }
+        const int nw = static_cast<int>(r.range(1, 3));
+        for (int i = 0; i < nw; ++i) {
+          const int xx = static_cast<int>(r.range(0, ns[0] - 1)), yy = static_cast<int>(r.range(0, ns[1] - 1)),
+            zz = static_cast<int>(r.range(0, ns[2] - 1));
+          const V v = Val<V>::id(next_id++);
+          plain(mk_ci<DIM>(xx, yy, zz)) = v;
+          plain_model[sm.lin(xx, yy, zz)] = v;
+        }
+        const Grid<V, DIM> & cplain = plain;
+        const bool through_const = r.coin();
+        bool pok = true;
+        I3 bad{{0, 0, 0}};
+        for (int zz = 0; zz < ns[2]; ++zz) {
+          for (int yy = 0; yy < ns[1]; ++yy) {
+            for (int xx = 0; xx < ns[0]; ++xx) {
+              const auto ci = mk_ci<DIM>(xx, yy, zz);
+              const V & got = through_const ? cplain(ci) : plain(ci);
+              if (pok && !Val<V>::same(got, plain_model[sm.lin(xx, yy, zz)])) {pok = false; bad = {{xx, yy, zz}};}
+            }
+          }
+        }
+        if (pok) {++x.plain;} else {
+          sok = false;
+          c.expect(O_PLAIN, false, K_PLAIN, params, [&]() {
+              return plain_wit("plain Grid n=(" + std::to_string(ns[0]) + "," + std::to_string(ns[1]) + "," + std::to_string(ns[2]) +
+                       "), written cell by cell: cell (" + std::to_string(bad[0]) + "," + std::to_string(bad[1]) + "," +
+                       std::to_string(bad[2]) + ") reads " + Val<V>::show(plain(mk_ci<DIM>(bad[0], bad[1], bad[2]))) + ", last value written " +
+                       Val<V>::show(plain_model[sm.lin(bad[0], bad[1], bad[2])]));
+            });
+        }
+      } else {
+        // a temporary grid that lives and dies between two observations
+        G tmp(mk_ci<DIM>(static_cast<int>(r.range(1, 4)), static_cast<int>(r.range(1, 4)), static_cast<int>(r.range(1, 4))));
+        tmp.setValue(Val<V>::special(r.next()));
+        I3 o{{0, 0, 0}};
+        for (int a = 0; a < dim; ++a) {o[a] = static_cast<int>(r.range(-5, 5));}
+        tmp.translate(mk_co<DIM>(o), Val<V>::empty(next_empty++));
+      }
+      h = vh::hash_addi(h, 0x51B + static_cast<uint64_t>(k));
+      if (k <= 1) {
+        const CmpStat st = compare<V, DIM>(*sp, sm, static_cast<int>(r.range(0, 2)));
+        sok = verdict<V, DIM>(c, t, unit_s, *sp, sm, st, s_translations, 0, s_last_off, [&]() {
+              std::vector<OpRec> o = ops;
+              o.push_back({'T', s_last_off, "(last operation on the SIBLING grid; the history above is the main grid's)", false});
+              return o;
+            });
+      }
+      // the grid under observation must not notice
+      g_op_class = 4;
+      g_kind_override = K_INTERFERENCE; g_oracle_override = O_SIBLING;
+      const CmpStat st = compare<V, DIM>(*gp, m, 0);
+      const bool mok = verdict<V, DIM>(c, t, unit, *gp, m, st, translations, writes, last_off, [&]() {return ops;});
+      g_kind_override = nullptr; g_oracle_override = nullptr;
+      if (mok) {++x.sibling;}
+      return sok && mok && check_refs();
+    };
+
+  // copy / move / assignment of the grid in mid-history.  The copy must behave as the original
+  // (same reference model), the source must not be affected by what happens to the copy and vice versa.
+  auto clone_op = [&]() -> bool {
+      const int k = static_cast<int>(r.range(0, 5));
+      ++x.clones;
+      auto scribble = [&](G & src) {
+          I3 o{{0, 0, 0}};
+          for (int a = 0; a < dim; ++a) {o[a] = static_cast<int>(r.range(-n[a], n[a]));}
+          src.translate(mk_co<DIM>(o), Val<V>::special(r.next()));
+          src.setValue(Val<V>::special(r.next()));
+        };
+      auto other = [&]() {       // an existing grid of other sizes with a history of its own (assignment target)
+          I3 no{{1, 1, 1}};
+          for (int a = 0; a < dim; ++a) {no[a] = static_cast<int>(r.range(1, 5));}
+          std::unique_ptr<G> o(new G(mk_ci<DIM>(no[0], no[1], no[2])));
+          o->setValue(Val<V>::special(r.next()));
+          I3 oo{{0, 0, 0}};
+          for (int a = 0; a < dim; ++a) {oo[a] = static_cast<int>(r.range(-3, 3));}
+          o->translate(mk_co<DIM>(oo), Val<V>::special(r.next()));
+          return o;
+        };
+      const char * what = "";
+      bool cok = true;
+      g_op_class = 3;
+      g_kind_override = K_COPY; g_oracle_override = O_CLONE;
+      if (k == 0) {
+        what = "copy-construct, overwrite and destroy the source";
+        std::unique_ptr<G> cp(new G(*gp));
+        scribble(*gp);
+        gp = std::move(cp);
+      } else if (k == 1) {
+        what = "copy-assign onto a grid of other sizes, overwrite and destroy the source";
+        std::unique_ptr<G> cp = other();
+        *cp = *gp;
+        scribble(*gp);
+        gp = std::move(cp);
+      } else if (k == 2) {
+        what = "move-construct, destroy the source";
+        std::unique_ptr<G> cp(new G(std::move(*gp)));
+        gp = std::move(cp);
+      } else if (k == 3) {
+        what = "move-assign onto a grid of other sizes, destroy the source";
+        std::unique_ptr<G> cp = other();
+        *cp = std::move(*gp);
+        gp = std::move(cp);
+      } else if (k == 4) {
+        what = "self copy-assignment";
+        G & alias = *gp;
+        *gp = alias;
+      } else {
+        what = "copy, use and destroy the copy; the source goes on";
+        std::unique_ptr<G> cp(new G(*gp));
+        Model<V> cm = m;
+        const int steps = static_cast<int>(r.range(1, 3));
+        for (int i = 0; i < steps && cok; ++i) {
+          const I3 off = random_offset(r, n, dim, static_cast<int>(r.range(0, 6)));
+          const V e = Val<V>::empty(next_empty++);
+          cp->translate(mk_co<DIM>(off), e); cm.translate(off, e);
+          const int xx = static_cast<int>(r.range(0, n[0] - 1)), yy = static_cast<int>(r.range(0, n[1] - 1)),
+            zz = static_cast<int>(r.range(0, n[2] - 1));
+          const V v = Val<V>::id(next_id++);
+          (*cp)(mk_ci<DIM>(xx, yy, zz)) = v; cm.write(xx, yy, zz, v);
+          const CmpStat st = compare<V, DIM>(*cp, cm, static_cast<int>(r.range(0, 2)));
+          cok = verdict<V, DIM>(c, t, unit, *cp, cm, st, translations + i + 1, writes, off, [&]() {
+                std::vector<OpRec> o = ops;
+                o.push_back({'T', off, "(operations on a COPY of the grid taken here; expected/read cells are the copy's)", false});
+                return o;
+              });
+        }
+      }
+      ops.push_back({'C', {{k, 0, 0}}, what, false});
+      h = vh::hash_addi(h, 0xC0 + static_cast<uint64_t>(k));
+      const CmpStat st = compare<V, DIM>(*gp, m, static_cast<int>(r.range(0, 2)));
+      const bool mok = verdict<V, DIM>(c, t, unit, *gp, m, st, translations, writes, last_off, [&]() {return ops;});
+      g_kind_override = nullptr; g_oracle_override = nullptr;
+      if (mok && cok) {++x.clone;}
+      rebind();
+      return mok && cok;
+    };
+
   int guard = 0;
-  while (ok && translations < max_translations && ++guard < 400) {
+  while (ok && translations < translations_goal && ++guard < 400) {
+    g_op_class = 0;
+    if (r.coin(0.3)) {
+      ok = sibling_activity();
+      if (!ok) {break;}
+      g_op_class = 0;
+    }
     const double u = r.uni();
+    bool rebound = false;
     if (u < p_write) {
       // a burst of writes through operator()
       const int k = static_cast<int>(r.range(1, 4));
       for (int i = 0; i < k; ++i) {
-        const int x = static_cast<int>(r.range(0, n[0] - 1)), y = static_cast<int>(r.range(0, n[1] - 1)),
-          z = static_cast<int>(r.range(0, n[2] - 1));
-        const V v = r.coin(0.05) ? Val<V>::special(r.next()) : Val<V>::id(next_id++);
-        g(mk_ci<DIM>(x, y, z)) = v; m.write(x, y, z, v);
-        written_since[m.lin(x, y, z)] = 1;
-        ops.push_back({'W', {{x, y, z}}, Val<V>::show(v), false});
-        h = vh::hash_addi(h, 0x57 + static_cast<uint64_t>(x + 16 * y + 256 * z) + (Val<V>::hash(v) << 12));
+        int xx = static_cast<int>(r.range(0, n[0] - 1)), yy = static_cast<int>(r.range(0, n[1] - 1)),
+          zz = static_cast<int>(r.range(0, n[2] - 1));
+        V v = r.coin(0.05) ? Val<V>::special(r.next()) : Val<V>::id(next_id++);
+        const double wk = r.uni();
+        const G & cg = *gp;
+        if (wk < 0.70) {
+          (*gp)(mk_ci<DIM>(xx, yy, zz)) = v;
+        } else if (wk < 0.80) {
+          V tmp = v;
+          (*gp)(mk_ci<DIM>(xx, yy, zz)) = std::move(tmp);            // rvalue
+          g_op_class = 2;
+        } else if (wk < 0.88) {
+          // the same value twice: a reference obtained from the grid's own accessor is assigned to another cell
+          const int x2 = static_cast<int>(r.range(0, n[0] - 1)), y2 = static_cast<int>(r.range(0, n[1] - 1)),
+            z2 = static_cast<int>(r.range(0, n[2] - 1));
+          v = m.cell[m.lin(x2, y2, z2)];
+          (*gp)(mk_ci<DIM>(xx, yy, zz)) = cg(mk_ci<DIM>(x2, y2, z2));
+          ++x.duplicate_values; g_op_class = 1;
+        } else if (wk < 0.92) {
+          v = m.cell[m.lin(xx, yy, zz)];
+          (*gp)(mk_ci<DIM>(xx, yy, zz)) = cg(mk_ci<DIM>(xx, yy, zz));   // cell assigned to itself
+          ++x.duplicate_values; g_op_class = 1;
+        } else {
+          // the reference returned by the offset getter passed straight back as the cell index
+          const auto & o = gp->getIndexOffsetAlongAxes();
+          xx = static_cast<int>(o[0]); yy = static_cast<int>(o[1]); zz = DIM == 3 ? static_cast<int>(o[DIM - 1]) : 0;
+          (*gp)(gp->getIndexOffsetAlongAxes()) = v;
+          ++x.getter_ref_index; g_op_class = 1;
+        }
+        m.write(xx, yy, zz, v);
+        written_since[m.lin(xx, yy, zz)] = 1;
+        ops.push_back({'W', {{xx, yy, zz}}, Val<V>::show(v), false});
+        h = vh::hash_addi(h, 0x57 + static_cast<uint64_t>(xx + 16 * yy + 256 * zz) + (Val<V>::hash(v) << 12));
         ++writes; ++t.writes;
       }
     } else if (u < p_write + 0.02) {
       const V v = Val<V>::id(next_id++);
-      g.setValue(v); m.fill(v);
+      if (r.coin()) {gp->setValue(v);} else {gp->setValue(V(v));}
+      m.fill(v);
       std::fill(written_since.begin(), written_since.end(), 1);
       ops.push_back({'F', {{0, 0, 0}}, Val<V>::show(v), false});
       h = vh::hash_addi(h, 0xF1 + (Val<V>::hash(v) << 8));
       ++writes; ++t.writes;
+    } else if (u < p_write + 0.07) {
+      ok = clone_op();
+      rebound = true;
+      if (!ok) {break;}
+      continue;
     } else {
-      I3 off{{0, 0, 0}};
-      const int mode = static_cast<int>(r.range(0, 5));
-      if (mode == 2) {
-        const int a = static_cast<int>(r.range(0, dim - 1));
-        off[a] = pick_offset(r, n[a], 0);
+      I3 off;
+      if (translations > 0 && r.coin(0.06)) {
+        off = last_off;                       // the very same translation again
+        ++x.repeated_translation;
       } else {
-        for (int a = 0; a < dim; ++a) {off[a] = pick_offset(r, n[a], mode);}
+        const int mode = static_cast<int>(r.range(0, 6));
+        off = random_offset(r, n, dim, mode);
+        if (mode == 6) {++x.equal_components;}
       }
       note_translation(t, m, off, dim);
       // did a cell written since the last translation stay inside the window?
       bool wrote_survivor = false;
       for (int z = 0; z < n[2] && !wrote_survivor; ++z) {
         for (int y = 0; y < n[1] && !wrote_survivor; ++y) {
-          for (int x = 0; x < n[0]; ++x) {
-            if (written_since[m.lin(x, y, z)] && x - off[0] >= 0 && x - off[0] < n[0] && y - off[1] >= 0 &&
+          for (int xx = 0; xx < n[0]; ++xx) {
+            if (written_since[m.lin(xx, y, z)] && xx - off[0] >= 0 && xx - off[0] < n[0] && y - off[1] >= 0 &&
               y - off[1] < n[1] && z - off[2] >= 0 && z - off[2] < n[2]) {wrote_survivor = true; break;}
           }
         }
@@ -772,34 +1180,77 @@ static void random_case(vh::Ctx & c, vh::Rng & r, uint64_t idx)
       if (wrote_survivor) {++t.write_survived_translation;}
       std::fill(written_since.begin(), written_since.end(), 0);
       const double ek = r.uni();
-      if (ek < 0.1) {
-        g.translate(mk_co<DIM>(off));            // default argument: emptyValue = T()
+      if (ek < 0.08) {
+        gp->translate(mk_co<DIM>(off));            // default argument: emptyValue = T()
         m.translate(off, V());
         ops.push_back({'T', off, Val<V>::show(V()), true});
         h = vh::hash_addi(h, 0xD0);
+      } else if (ek < 0.18) {
+        // the empty value is a reference to one of the grid's own cells; expected = its value at call time
+        const int xx = static_cast<int>(r.range(0, n[0] - 1)), yy = static_cast<int>(r.range(0, n[1] - 1)),
+          zz = static_cast<int>(r.range(0, n[2] - 1));
+        const G & cg = *gp;
+        const V at_call = m.cell[m.lin(xx, yy, zz)];
+        gp->translate(mk_co<DIM>(off), cg(mk_ci<DIM>(xx, yy, zz)));
+        m.translate(off, at_call);
+        ops.push_back({'T', off, Val<V>::show(at_call) + "  (passed as a reference to the grid's own cell (" + std::to_string(xx) + "," +
+            std::to_string(yy) + "," + std::to_string(zz) + "))", false});
+        h = vh::hash_addi(h, 0xA1 + Val<V>::hash(at_call));
+        ++x.aliased_empty; g_op_class = 1;
       } else {
-        const V e = ek < 0.2 ? Val<V>::special(r.next()) : Val<V>::empty(next_empty++);
-        g.translate(mk_co<DIM>(off), e);
-        m.translate(off, e);
-        ops.push_back({'T', off, Val<V>::show(e), false});
-        h = vh::hash_addi(h, Val<V>::hash(e));
+        // explicit value: unique, special, or equal to a value that is already in the grid
+        V e = ek < 0.26 ? Val<V>::special(r.next()) : ek < 0.31 ?
+          m.cell[static_cast<size_t>(r.range(0, static_cast<int64_t>(m.size()) - 1))] : Val<V>::empty(next_empty++);
+        const V shown = e;
+        const double vk = r.uni();
+        if (vk < 0.7) {gp->translate(mk_co<DIM>(off), e);} else if (vk < 0.85) {
+          gp->translate(mk_co<DIM>(off), V(e));              // temporary
+          ++x.rvalue_empty; g_op_class = 2;
+        } else {
+          const auto co = mk_co<DIM>(off);
+          gp->translate(co, std::move(e));                   // xvalue, offset as an lvalue
+          ++x.rvalue_empty; g_op_class = 2;
+        }
+        m.translate(off, shown);
+        ops.push_back({'T', off, Val<V>::show(shown), false});
+        h = vh::hash_addi(h, Val<V>::hash(shown));
       }
       h = vh::hash_addi(h, 0x7A + static_cast<uint64_t>((off[0] + 64) + 128 * (off[1] + 64) + 16384 * (off[2] + 64)));
       ++translations;
       last_off = off;
+      rebind();
+      rebound = true;
     }
-    const CmpStat st = compare<V, DIM>(g, m, static_cast<int>(r.range(0, 2)));
-    ok = verdict<V, DIM>(c, t, unit, g, m, st, translations, writes, last_off, [&]() {return ops;});
+    ok = check_main(static_cast<int>(r.range(0, 2)));
+    if (ok && !rebound) {ok = check_refs();}
+  }
+  g_op_class = 0;
+  if (ok) {
+    // end of the case: the sibling still matches its own model, bound references and snapshots still hold
+    const CmpStat st = compare<V, DIM>(*sp, sm, 0);
+    ok = verdict<V, DIM>(c, t, unit_s, *sp, sm, st, s_translations, 0, s_last_off, [&]() {return ops;});
+    if (ok) {ok = check_refs();}
+    bool snap_ok = Val<V>::same(snap_value, snap_expect);
+    for (size_t a = 0; a < DIM; ++a) {if (snap_offset[a] != 0) {snap_ok = false;}}
+    if (snap_ok) {++x.snapshot;} else {
+      c.expect(O_SNAP, false, K_STALE, params, [&]() {return plain_wit("values copied out of the pristine grid changed later");});
+    }
   }
   // non-trivial: goes beyond what the unit tests do (one translation from the pristine state)
   (void)idx;
   c.distinct(vh::hash_addi(h, static_cast<uint64_t>(translations)), translations >= 2);
-  c.sample(std::string("random_") + Val<V>::name() + (dim == 2 ? "_2d" : "_3d"), [&]() {
+  c.sample(std::string("random_") + Val<V>::name() + (dim == 2 ? "_2d" : "_3d") + (long_bits ? "_long" : ""), [&]() {
       std::vector<OpRec> head(ops.begin(), ops.begin() + std::min<size_t>(ops.size(), 6));
       return vh::J().s("unit", unit).f("translations", translations).f("writes", writes)
              .raw("first_ops", ops_json(head)).str();
     });
   t.flush(c);
+  x.flush(c);
+}
+
+template<class V> static void random_dim(vh::Ctx & c, vh::Rng & r, uint64_t idx, bool d3, int long_bits)
+{
+  if (d3) {random_case<V, 3>(c, r, idx, long_bits);} else {random_case<V, 2>(c, r, idx, long_bits);}
 }
 
 // --------------------------------------------------------------------------------------------
@@ -832,24 +1283,21 @@ static void one_case(vh::Ctx & c, uint64_t idx)
     return;
   }
   vh::Rng r(c.seed, idx);
-  // int 20 %, double 15 %, string 15 %, uint8 15 %, int8 15 %, char 10 %, uint16 10 %
+  // a fixed share of the random histories starts with 2^8+k resp. 2^16+k identical translations
+  const uint64_t rel = idx - U.size();
+  const int long_bits = rel % 1000 == 7 ? 16 : (rel % 50 == 3 ? 8 : 0);
+  // int 15 %, double 10 %, string 15 %, uint8 15 %, int8 10 %, char 10 %, uint16 10 %, float 5 %, rgb3 10 %
   const int ty = static_cast<int>(r.range(0, 19));
   const bool d3 = r.coin(0.5);
-  if (ty < 4) {
-    if (d3) {random_case<int, 3>(c, r, idx);} else {random_case<int, 2>(c, r, idx);}
-  } else if (ty < 7) {
-    if (d3) {random_case<double, 3>(c, r, idx);} else {random_case<double, 2>(c, r, idx);}
-  } else if (ty < 10) {
-    if (d3) {random_case<std::string, 3>(c, r, idx);} else {random_case<std::string, 2>(c, r, idx);}
-  } else if (ty < 13) {
-    if (d3) {random_case<uint8_t, 3>(c, r, idx);} else {random_case<uint8_t, 2>(c, r, idx);}
-  } else if (ty < 16) {
-    if (d3) {random_case<int8_t, 3>(c, r, idx);} else {random_case<int8_t, 2>(c, r, idx);}
-  } else if (ty < 18) {
-    if (d3) {random_case<char, 3>(c, r, idx);} else {random_case<char, 2>(c, r, idx);}
-  } else {
-    if (d3) {random_case<uint16_t, 3>(c, r, idx);} else {random_case<uint16_t, 2>(c, r, idx);}
-  }
+  if (ty < 3) {random_dim<int>(c, r, idx, d3, long_bits);} else if (ty < 5) {
+    random_dim<double>(c, r, idx, d3, long_bits);
+  } else if (ty < 8) {random_dim<std::string>(c, r, idx, d3, long_bits);} else if (ty < 11) {
+    random_dim<uint8_t>(c, r, idx, d3, long_bits);
+  } else if (ty < 13) {random_dim<int8_t>(c, r, idx, d3, long_bits);} else if (ty < 15) {
+    random_dim<char>(c, r, idx, d3, long_bits);
+  } else if (ty < 17) {random_dim<uint16_t>(c, r, idx, d3, long_bits);} else if (ty < 18) {
+    random_dim<float>(c, r, idx, d3, long_bits);
+  } else {random_dim<RGB>(c, r, idx, d3, long_bits);}
 }
 
 int main(int argc, char ** argv)
